@@ -101,6 +101,19 @@ func (t *ftree) insertAfter(parent, after, nd *model.RDir) {
 	*list = append(*list, nd)
 }
 
+// secondTags gives a method that has a Tags directive a second one (a copy of the first, directly after it) and returns it: the
+// library takes the tags of an interaction from the first Tags directive only, the later ones still have to be checked.
+func (t *ftree) secondTags() *model.RDir {
+	ds, parents := t.find(func(d, p *model.RDir) bool { return d.Kind == "Tags" && p != nil && p.Kind != "URL" })
+	if len(ds) == 0 {
+		return nil
+	}
+	i := t.pick(ds)
+	nd := &model.RDir{Kind: "Tags", Keyword: "Tags", Params: append([]string(nil), ds[i].Params...)}
+	t.insertAfter(parents[i], ds[i], nd)
+	return nd
+}
+
 func child(d *model.RDir, kind string) *model.RDir {
 	for _, c := range d.Children {
 		if c.Kind == kind {
@@ -235,6 +248,11 @@ func missingParam(kind, class string) faultFn {
 			out = append(out, ds[0])
 			t.roots = append(out, t.roots[at:]...)
 		}
+		if kind == "Tags" && t.r.Intn(2) == 0 {
+			if d := t.secondTags(); d != nil {
+				ds = []*model.RDir{d}
+			}
+		}
 		if len(ds) == 0 {
 			return nil
 		}
@@ -273,6 +291,11 @@ func forbiddenAnnotation(kind string) faultFn {
 		ds, _ := t.find(func(d, p *model.RDir) bool {
 			return d.Kind == want && (parentKind == "" || (p != nil && p.Kind == parentKind))
 		})
+		if kind == "Tags" && t.r.Intn(2) == 0 {
+			if d := t.secondTags(); d != nil {
+				ds = []*model.RDir{d}
+			}
+		}
 		if len(ds) == 0 {
 			return nil
 		}
@@ -492,10 +515,25 @@ func faultTable() map[string]faultFn {
 				}
 			}
 			tg := &model.RDir{Kind: "Tags", Keyword: "Tags", Params: []string{name}}
-			if old := child(m, "Tags"); old != nil {
+			old := child(m, "Tags")
+			if old == nil && t.r.Intn(3) == 0 {
+				// give the method a valid Tags directive first (if the document declares a tag): the fault then sits in a second one
+				for _, rt := range t.roots {
+					if rt.Kind == "TAG" && len(rt.Params) > 0 {
+						old = &model.RDir{Kind: "Tags", Keyword: "Tags", Params: []string{rt.Params[0]}}
+						m.Children = append([]*model.RDir{old}, m.Children...)
+						break
+					}
+				}
+			}
+			switch {
+			case old != nil && t.r.Intn(2) == 0:
+				// a second Tags directive of the same method (the library takes the tags of an interaction from the first one only)
+				t.insertAfter(m, old, tg)
+			case old != nil:
 				old.Params = append(old.Params, name)
 				tg = old
-			} else {
+			default:
 				m.Children = append([]*model.RDir{tg}, m.Children...)
 			}
 			return &injected{class: "undefined-tag", off: tg, patterns: []string{"tag not found"}}
